@@ -312,6 +312,9 @@ func hash(outer, t types.Type, x value) int {
 	case rtype:
 		return x.hash(t)
 	}
+	if _, ok := x.(opaqueStr); ok {
+		panic(abort{kind: "inconclusive", msg: "opaque string used as a map key"})
+	}
 	panic(fmt.Sprintf("unhashable type %v", outer))
 }
 
